@@ -3541,16 +3541,28 @@ impl<'s> Semantics<'s> {
                 rhs = Expr::sext(lhs.bits(), rhs)?;
             }
 
-            let rhs = Expr::add(rhs.clone(), Expr::zext(rhs.bits(), expr_scalar("CF", 1))?)?;
-
+            let diff_no_borrow = self.temp(1, lhs.bits());
             let result = self.temp(0, lhs.bits());
-            block.assign(result.clone(), Expr::sub(lhs.clone(), rhs.clone())?);
+
+            // perform subtraction in two steps: (lhs - rhs), then - CF, so that rhs + CF cannot wrap
+            block.assign(
+                diff_no_borrow.clone(),
+                Expr::sub(lhs.clone(), rhs.clone())?,
+            );
+            let zext_cf = Expr::zext(lhs.bits(), expr_scalar("CF", 1))?;
+            block.assign(
+                result.clone(),
+                Expr::sub(diff_no_borrow.clone().into(), zext_cf.clone())?,
+            );
 
             // calculate flags
             self.set_zf(block, result.clone().into())?;
             self.set_sf(block, result.clone().into())?;
-            self.set_of(block, result.clone().into(), lhs.clone(), rhs, true)?;
-            self.set_cf(block, result.clone().into(), lhs)?;
+            self.set_of(block, result.clone().into(), lhs.clone(), rhs.clone(), true)?;
+            // Two-step borrow: borrow from lhs-rhs, or borrow from (lhs-rhs)-CF
+            let borrow1 = Expression::cmpltu(lhs, rhs)?;
+            let borrow2 = Expression::cmpltu(diff_no_borrow.into(), zext_cf)?;
+            block.assign(scalar("CF", 1), Expression::or(borrow1, borrow2)?);
 
             // store result
             self.operand_store(block, &detail.operands[0], result.into())?;
